@@ -4,13 +4,18 @@ import (
 	"bytes"
 	"encoding/binary"
 	"fmt"
+	"math"
 	"reflect"
 	"strings"
 	"sync/atomic"
 	"testing"
+	"time"
 	"unsafe"
 
 	"github.com/philpearl/avro"
+	avronull "github.com/philpearl/avro/null"
+	avrotime "github.com/philpearl/avro/time"
+	null "github.com/unravelin/null/v5"
 	"pgregory.net/rapid"
 
 	"verifh/gen"
@@ -21,9 +26,9 @@ import (
 
 // C20 — a registered custom codec governs its type everywhere and nothing else.
 
-const c20Rule = "rapid draws of histories over the ops register(custom type in {struct, named int64, named []string: bytes schema; named string: string schema}, builder j in {0,1}, schema form in {T, [null,T]}) and " +
+const c20Rule = "rapid draws of histories over the ops register(custom type in {struct, named int64, named []string: bytes schema; named string: string schema; the unnamed type []float32 and the predeclared type uint64: bytes schema}, builder j in {0,1}, schema form in {T, [null,T]}) and " +
 	"roundtrip(a generated struct type placing registered types and unregistered look-alikes with the same underlying type as field, behind 1-2 pointers, as slice element, as map value, under omitempty, next to time.Time / null.*; values); " +
-	"every builder frames its payload with its own marker byte and counts Read/Write calls; model = latest registration per type; oracle per roundtrip: SchemaForType equals the model mapping with the registered schema at each occurrence " +
+	"every builder frames its payload with its own marker byte and counts Read/Write calls; also: a user registration for time.Time / null.Int followed by the library's own RegisterCodecs() again (latest wins both ways); model = latest registration per type; oracle per roundtrip: SchemaForType equals the model mapping with the registered schema at each occurrence " +
 	"(wrapped in a union exactly when the mapping says so); the reference decoder finds the latest builder's marker at every occurrence and none at look-alikes (which use the default mapping); values round-trip; " +
 	"only the latest builder's counters move; non-trivial = a registered type in a slice-element or map-value position, or a roundtrip after a re-registration; distinct by case JSON hash"
 
@@ -109,6 +114,48 @@ var customDefs = []*customDef{
 	},
 }
 
+func init() {
+	// registrations are keyed by reflect.Type: nothing requires the type to be a
+	// defined type with a package path. An unnamed composite type and a
+	// predeclared type, registered like any other.
+	customDefs = append(customDefs,
+		&customDef{
+			kind: "cf32s", typ: reflect.TypeOf([]float32(nil)),
+			encode: func(p unsafe.Pointer) []byte {
+				var b []byte
+				for _, f := range *(*[]float32)(p) {
+					b = binary.LittleEndian.AppendUint32(b, math.Float32bits(f))
+				}
+				return b
+			},
+			decode: func(p unsafe.Pointer, b []byte) error {
+				if len(b)%4 != 0 {
+					return fmt.Errorf("[]float32 payload length %d", len(b))
+				}
+				var out []float32
+				for i := 0; i+4 <= len(b); i += 4 {
+					out = append(out, math.Float32frombits(binary.LittleEndian.Uint32(b[i:])))
+				}
+				*(*[]float32)(p) = out
+				return nil
+			},
+			isZero: func(p unsafe.Pointer) bool { return len(*(*[]float32)(p)) == 0 },
+		},
+		&customDef{
+			kind: "cu64", typ: reflect.TypeOf(uint64(0)),
+			encode: func(p unsafe.Pointer) []byte { return binary.LittleEndian.AppendUint64(nil, *(*uint64)(p)) },
+			decode: func(p unsafe.Pointer, b []byte) error {
+				if len(b) != 8 {
+					return fmt.Errorf("uint64 payload must be 8 bytes")
+				}
+				*(*uint64)(p) = binary.LittleEndian.Uint64(b)
+				return nil
+			},
+			isZero: func(p unsafe.Pointer) bool { return *(*uint64)(p) == 0 },
+		},
+	)
+}
+
 func (d *customDef) wireKind() string {
 	if d.wire == "" {
 		return "bytes"
@@ -124,9 +171,9 @@ type regState struct {
 
 var (
 	c20State  = map[string]*regState{}
-	c20Reads  [4][2]atomic.Int64 // [type][builder]
-	c20Writes [4][2]atomic.Int64
-	c20Builds [4][2]atomic.Int64
+	c20Reads  [6][2]atomic.Int64 // [type][builder]
+	c20Writes [6][2]atomic.Int64
+	c20Builds [6][2]atomic.Int64
 )
 
 // markedCodec is the custom codec: bytes = marker ‖ payload.
@@ -205,7 +252,7 @@ func c20Register(ti, j int, nullable bool) {
 func init() {
 	for ti, def := range customDefs {
 		ti, def := ti, def
-		base := map[string]string{"cstruct": "int64", "cint": "int64", "cslice": "string", "cstr": "string"}[def.kind]
+		base := map[string]string{"cstruct": "int64", "cint": "int64", "cslice": "string", "cstr": "string", "cf32s": "bytes", "cu64": "int64"}[def.kind]
 		spec.Custom[def.kind] = &spec.CustomKind{
 			Type: def.typ, Schema: ref.Prim(def.wireKind()), Base: base,
 			Set: func(dst reflect.Value, v spec.ValueSpec) { c20Set(def.kind, dst, v) },
@@ -264,6 +311,17 @@ func c20Set(kind string, dst reflect.Value, v spec.ValueSpec) {
 		dst.SetInt(v.I)
 	case "cstr":
 		dst.SetString(strings.ToValidUTF8(string(v.S), "?"))
+	case "cu64":
+		dst.SetUint(uint64(v.I))
+	case "cf32s":
+		if v.Nil || len(v.S) == 0 {
+			return
+		}
+		fs := make([]float32, 0, len(v.S))
+		for _, b := range v.S {
+			fs = append(fs, float32(b)/4)
+		}
+		dst.Set(reflect.ValueOf(fs))
 	case "cslice", "lslice":
 		parts := strings.FieldsFunc(string(v.S), func(r rune) bool { return r == ' ' || r == 0 || r == '-' })
 		if len(parts) == 0 {
@@ -278,10 +336,14 @@ func c20Set(kind string, dst reflect.Value, v spec.ValueSpec) {
 }
 
 type c20Op struct {
-	Register bool `json:"register,omitempty"`
-	Type     int  `json:"type,omitempty"`
-	Builder  int  `json:"builder,omitempty"`
-	Nullable bool `json:"nullable,omitempty"`
+	// LibCycle: a user registration for one of the library's own types
+	// (time.Time / null.Int), checked, then the library's RegisterCodecs() again,
+	// checked: the most recent registration wins in both directions.
+	LibCycle string `json:"lib_cycle,omitempty"`
+	Register bool   `json:"register,omitempty"`
+	Type     int    `json:"type,omitempty"`
+	Builder  int    `json:"builder,omitempty"`
+	Nullable bool   `json:"nullable,omitempty"`
 	// roundtrip
 	TS      spec.TypeSpec    `json:"ts,omitempty"`
 	GoType  string           `json:"go_type,omitempty"`
@@ -318,6 +380,14 @@ func runC20(c c20Case) (bool, []string, error) {
 	reRegistered := false
 	var labels []string
 	for step, op := range c.Ops {
+		if op.LibCycle != "" {
+			if err := c20LibCycle(op.LibCycle); err != nil {
+				return true, append(labels, "library_type_reregistered"), fmt.Errorf("step %d: %v", step, err)
+			}
+			labels = append(labels, "library_type_reregistered")
+			nontrivial = true
+			continue
+		}
 		if op.Register {
 			c20Register(op.Type%len(customDefs), op.Builder%2, op.Nullable)
 			reRegistered = true
@@ -350,7 +420,7 @@ func runC20(c c20Case) (bool, []string, error) {
 			return nontrivial, labels, fmt.Errorf("step %d: schema does not show the registered schema where the type occurs: %s\n%s", step, d, b)
 		}
 		// (2) write
-		var before [4][2][2]int64
+		var before [6][2][2]int64
 		for ti := range customDefs {
 			for j := 0; j < 2; j++ {
 				before[ti][j] = [2]int64{c20Reads[ti][j].Load(), c20Writes[ti][j].Load()}
@@ -408,13 +478,112 @@ func runC20(c c20Case) (bool, []string, error) {
 	return nontrivial, labels, nil
 }
 
+// libOverrideCodec: a user codec for a library type, writing a long.
+type libOverrideCodec struct {
+	avro.Int64Codec
+	typ reflect.Type
+}
+
+func (c libOverrideCodec) Write(w *avro.WriteBuf, p unsafe.Pointer) {
+	v := int64(424242)
+	c.Int64Codec.Write(w, unsafe.Pointer(&v))
+}
+func (c libOverrideCodec) Read(r *avro.ReadBuf, p unsafe.Pointer) error {
+	var v int64
+	return c.Int64Codec.Read(r, unsafe.Pointer(&v))
+}
+func (c libOverrideCodec) New(r *avro.ReadBuf) unsafe.Pointer { return r.Alloc(c.typ) }
+func (c libOverrideCodec) Omit(p unsafe.Pointer) bool         { return false }
+
+type libTimeHolder struct {
+	T  time.Time   `json:"t"`
+	Ts []time.Time `json:"ts"`
+}
+type libNullHolder struct {
+	N  null.Int            `json:"n"`
+	Ns map[string]null.Int `json:"ns"`
+}
+
+func c20LibCycle(lib string) error {
+	var typ reflect.Type
+	var holder interface{}
+	var restore func()
+	var libSchema string
+	switch lib {
+	case "time":
+		typ, holder, restore = reflect.TypeOf(time.Time{}), libTimeHolder{}, avrotime.RegisterCodecs
+		libSchema = `{"type":"record","name":"libTimeHolder","namespace":"verifh.checks","fields":[{"name":"t","type":["null","string"]},{"name":"ts","type":{"type":"array","items":["null","string"]}}]}`
+	default:
+		typ, holder, restore = reflect.TypeOf(null.Int{}), libNullHolder{}, avronull.RegisterCodecs
+		libSchema = `{"type":"record","name":"libNullHolder","namespace":"verifh.checks","fields":[{"name":"n","type":["null","long"]},{"name":"ns","type":{"type":"map","values":["null","long"]}}]}`
+	}
+	defer restore() // whatever happens, leave the library's registrations in force
+	// (1) the user's registration governs the library type
+	avro.Register(typ, func(s avro.Schema, t reflect.Type, omit bool) (avro.Codec, error) {
+		return libOverrideCodec{typ: typ}, nil
+	})
+	avro.RegisterSchema(typ, avro.Schema{Type: "long"})
+	s, err := avro.SchemaForType(holder)
+	if err != nil {
+		return fmt.Errorf("after a user registration for %s: %v", typ, err)
+	}
+	if b, _ := s.Marshal(); !strings.Contains(string(b), `"type":"long"`) || strings.Contains(string(b), `"null"`) {
+		return fmt.Errorf("a user registration for %s does not govern the generated schema: %s", typ, b)
+	}
+	codec, err := s.Codec(holder)
+	if err != nil {
+		return fmt.Errorf("after a user registration for %s: Schema.Codec: %v", typ, err)
+	}
+	wb := avro.NewWriteBuf(nil)
+	hv := reflect.New(reflect.TypeOf(holder))
+	codec.Write(wb, hv.UnsafePointer())
+	if want := append(ref.AppendLong(nil, 424242), 0); !bytes.Equal(wb.Bytes(), want) {
+		return fmt.Errorf("a user registration for %s does not govern encoding: wrote % x, want % x", typ, wb.Bytes(), want)
+	}
+	// (2) the library registers again: most recent wins
+	restore()
+	s2, err := avro.SchemaForType(holder)
+	if err != nil {
+		return err
+	}
+	if b, _ := s2.Marshal(); string(b) != libSchema {
+		return fmt.Errorf("after the library's RegisterCodecs() was called again (the most recent registration), the schema for %s is still the user's: %s", typ, b)
+	}
+	codec2, err := s2.Codec(holder)
+	if err != nil {
+		return err
+	}
+	wb = avro.NewWriteBuf(nil)
+	switch lib {
+	case "time":
+		v := libTimeHolder{T: time.Date(2020, 2, 3, 4, 5, 6, 0, time.UTC)}
+		codec2.Write(wb, unsafe.Pointer(&v))
+		want := append(append([]byte{2}, append(ref.AppendLong(nil, 20), "2020-02-03T04:05:06Z"...)...), 0)
+		if !bytes.Equal(wb.Bytes(), want) {
+			return fmt.Errorf("after re-registration by the library, time.Time is not encoded by the library's codec: % x", wb.Bytes())
+		}
+	default:
+		v := libNullHolder{}
+		v.N.Int64, v.N.Valid = 7, true
+		codec2.Write(wb, unsafe.Pointer(&v))
+		if want := []byte{2, 14, 0}; !bytes.Equal(wb.Bytes(), want) {
+			return fmt.Errorf("after re-registration by the library, null.Int is not encoded by the library's codec: % x", wb.Bytes())
+		}
+	}
+	return nil
+}
+
 func drawC20(t *rapid.T) c20Case {
 	var c c20Case
-	leaves := []string{"cstruct", "cint", "cslice", "cstr", "lstruct", "lint", "lslice", "cstruct", "cint", "cslice", "cstr", "time", "nullInt", "int64", "string"}
+	leaves := []string{"cstruct", "cint", "cslice", "cstr", "cf32s", "cu64", "lstruct", "lint", "lslice", "cstruct", "cint", "cslice", "cstr", "time", "nullInt", "int64", "string"}
 	n := gen.UniformRange(t, "nops", 1, 8)
 	for i := 0; i < n; i++ {
+		if gen.Uniform(t, "libcycle", 12) == 0 {
+			c.Ops = append(c.Ops, c20Op{LibCycle: []string{"time", "null"}[gen.Uniform(t, "lib", 2)]})
+			continue
+		}
 		if gen.Uniform(t, "op", 3) == 0 {
-			c.Ops = append(c.Ops, c20Op{Register: true, Type: gen.Uniform(t, "type", 4), Builder: gen.Uniform(t, "builder", 2), Nullable: rapid.Bool().Draw(t, "nullable")})
+			c.Ops = append(c.Ops, c20Op{Register: true, Type: gen.Uniform(t, "type", 6), Builder: gen.Uniform(t, "builder", 2), Nullable: rapid.Bool().Draw(t, "nullable")})
 			continue
 		}
 		ts := gen.StructType(t, gen.TypeOpts{MaxDepth: 3, MaxFields: 4, Leaves: leaves}, 1)
